@@ -22,7 +22,8 @@ MIN_CASES = {'quick': 1200, 'thorough': 40000}
 WATCHDOG_S = {'quick': 1200, 'thorough': 7200}
 
 MAPS = ['837.4010.X098.A1.xml', '837.5010.X222.A1.xml', '837.4010.X096.A1.xml', '835.4010.X091.A1.xml', '834.4010.X095.A1.xml', '271.4010.X092.A1.xml',
-        '277.4010.X093.A1.xml', '278.4010.X094.A1.xml', '820.4010.X061.A1.xml', '837Q3.I.5010.X223.A1.xml', '835.5010.X221.A1.xml', '270.4010.X092.A1.xml']
+        '277.4010.X093.A1.xml', '278.4010.X094.A1.xml', '820.4010.X061.A1.xml', '837Q3.I.5010.X223.A1.xml', '835.5010.X221.A1.xml', '270.4010.X092.A1.xml',
+        '997.4010.xml', '999.5010.xml']        # the 997's loops are called AK2 and AK3: ids that the path syntax reads as segment ids
 
 
 class MSeg(object):
